@@ -572,6 +572,13 @@ def crash_part(ctx, tabs, rng, n, scratch):
     for s in star_seeds:
         reqs.append({"op": "load.packages", "dir": scratch, "files": [["BUILD.star", s]], "workers": 2, "timeout_s": 15})
         meta.append(("BUILD.star", "seed", s))
+    # TYPE-level corruptions: every field of a target / alias / package with every wrongly typed value, in every format
+    typed = G.typed_corruptions()
+    if ctx.tier == "quick":
+        typed = [c for c in typed if c[0] in ("BUILD.star", "BUILD.json") or rng.random() < 0.35]
+    for name, text, d in typed:
+        reqs.append({"op": "load.packages", "dir": scratch, "files": [[name, text]], "workers": 2, "timeout_s": 15})
+        meta.append((name, "type:" + d.split("=")[0], text))
     for _ in range(n):
         name = rng.choice(FORMATS + ["x.grog.sh"])
         if name == "x.grog.sh":
@@ -588,7 +595,8 @@ def crash_part(ctx, tabs, rng, n, scratch):
         return False
     for (name, kind, text), r in zip(meta, io):
         fz["cases"] += 1
-        fz["by_kind"][kind] = fz["by_kind"].get(kind, 0) + 1
+        kk = "type-level" if kind.startswith("type:") else kind
+        fz["by_kind"][kk] = fz["by_kind"].get(kk, 0) + 1
         fz["by_format"][name] = fz["by_format"].get(name, 0) + 1
         ctx.coverage["evaluations"] += 1
         desc = bad_reply(r)
@@ -612,6 +620,19 @@ def crash_part(ctx, tabs, rng, n, scratch):
         ctx.violation("BUILD.star with a (practically) non-terminating loop: the loader does not return within 6 s and has no step limit",
                       {"kind": "oracle", "oracle": "no panic / hang (fuzzing)", "file": "BUILD.star", "corruption": "runaway-program", "text": runaway, "impl": r},
                       signature="starlark:unbounded-evaluation")
+    # the same program, but the command's context is cancelled after 1 s (what SIGINT / SIGTERM do): loading must stop
+    r = G.run_resilient(ctx, [{"op": "load.packages", "dir": scratch, "files": [["BUILD.star", runaway]], "workers": 1, "timeout_s": 8,
+                               "cancel_after_ms": 1000}])[0]
+    fz["cases"] += 1
+    fz["by_kind"]["runaway-program-interrupted"] = 1
+    ctx.coverage["evaluations"] += 1
+    desc = bad_reply(r)
+    if desc or not r.get("err"):
+        fz["panics_or_hangs"] += 1
+        ctx.violation("BUILD.star with a (practically) non-terminating loop: loading does not stop when the command's context is cancelled "
+                      "(after SIGINT grog prints 'Received signal, exiting...' and keeps evaluating; further SIGINTs are swallowed)",
+                      {"kind": "oracle", "oracle": "no hang: cancellation stops the loaders", "file": "BUILD.star", "corruption": "runaway-program, context cancelled after 1 s",
+                       "text": runaway, "impl": r}, signature="starlark:ignores-cancellation")
     # corrupted Makefiles / scripts also go through the scanner correspondence
     scanner_part(ctx, tabs, scan_texts, scratch)
     return True
@@ -695,6 +716,8 @@ def run(ctx):
     bad_yaml = [c for c, v in tabs.yaml.items() if isinstance(v, tuple)]
     for c in bad_yaml[:1]:
         ctx.violation("yaml.v3 " + tabs.yaml[c][1], {"kind": "oracle", "oracle": "no panic / hang (fuzzing)", "content": c}, signature="yaml:panic")
+    # report violations that come with a concrete failing input first
+    ctx.violations.sort(key=lambda v: not v[1])
 
 
 def replay(ctx, rep):
